@@ -34,6 +34,19 @@ def case_strategy(procs):
     return s
 
 
+def restamp_strategy(tier):
+    """Handlers that keep the Event object they received and return it again later, re-stamped to the current instant (what
+    Queue/QueueDriver do with payloads): 1-3 entities, immediate handlers only, no hooks / handles (a re-emitted object's hook
+    and cancellation state is not something the statement speaks about)."""
+    return st.fixed_dictionaries({
+        "prog": program_strategy(tier=tier, procs=False, futures=False, cancels=False, hooks=False, max_entities=3, past=False,
+                                 stash=True),
+        "end": st.sampled_from([None, None, 2, 4, 6, 60]),
+        "endj": st.sampled_from([0, 0, 1, -1]),
+        "control": st.booleans(),
+    })
+
+
 def dproj(log, end_ns=None):
     return [e for e in log if e[0] == "D" and (end_ns is None or e[1] <= end_ns)]
 
@@ -138,7 +151,9 @@ def execute_factory(obl):
         r.labels += [l for l, c in (("tie-mixed-depth", mixed), ("tie", ties), ("daemon-tail", tail),
                                     ("cancel-pending", "cancel-pending" in ref_lazy.features),
                                     ("past-discard", ref_lazy.past_discards), ("ambiguous", ambiguous),
-                                    ("end-set", end_ns is not None), ("control", case["control"])) if c]
+                                    ("end-set", end_ns is not None), ("control", case["control"]),
+                                    ("restamped-event", "restamped-event" in ref_lazy.features),
+                                    ("end-as-duration", bool(prog.get("dur")) and end_ns is not None and bool(prog.get("start")))) if c]
         r.target = float(min(mixed + ties, 8))
         return r
     return execute
@@ -182,6 +197,8 @@ OBLIGATIONS = [
     Obligation("small-scope", case_strategy(False), execute_factory("small-scope"), {"quick": 0, "thorough": 0},
                "EXHAUSTIVE sub-space (no sampling): " + " ".join((small_scope.__doc__ or "").split()) + " Same oracle and non-triviality rule.",
                enumerate=small_scope),
+    Obligation("restamp", restamp_strategy, execute_factory("restamp"), {"quick": 2000, "thorough": 80000},
+               "as imm, with handlers that hold received Event objects and re-emit them re-stamped; non-trivial as for imm"),
     Obligation("proc", case_strategy(True), execute_factory("proc"), {"quick": 3000, "thorough": 150000},
                "same, with generator handlers (delays, side-effect events, futures, any_of/all_of, yield from) mixed in; "
                "same non-triviality rule"),
